@@ -281,7 +281,9 @@ class IntermediateCodeGen(AbstractCodeGen):
         if revisions:
             outDict['revisions'] = revisions
 
-            self._moduleRevision = revisions[0]['revision']
+            # (REVISION clauses come in any order: the module's revision is
+            # the latest of them; times are formatted %Y-%m-%d %H:%M)
+            self._moduleRevision = max([x['revision'] for x in revisions])
 
         if self.genRules['text']:
             if lastUpdated:
